@@ -459,6 +459,13 @@ func runPopOrWait(c powCase) (kind, violation string, trace []string, waited int
 			}
 		case "sync":
 			quiesce()
+		case "signal":
+			// a SignalShutdown while the wait condition still holds (e.g. the signal of an earlier run of a restartable
+			// owner): it may wake the waiters up, but none of them - nor any later one - may return empty-handed
+			tr("SignalShutdown() with the wait condition still true")
+			if !withinHang(s.SignalShutdown) {
+				fail("not_woken", "SignalShutdown did not return within %s", ctl.HangTimeout)
+			}
 		}
 		if kind != "" {
 			return
@@ -512,10 +519,10 @@ func runPopOrWait(c powCase) (kind, violation string, trace []string, waited int
 
 func TestStackPopOrWait(t *testing.T) {
 	const check = "stack_pop_or_wait"
-	stats.Rule(check, "rapid draws 1-4 PopOrWait(running) waiters launched at drawn positions of a 0-8 step controller program (push / pop / sync) plus 0-2 WaitSizeIsAbove(6) bystanders on the same condition variable; oracles: an element is delivered exactly once and only if pushed; a waiter returns empty-handed only after the wait condition was set false; at sync points and at the end (running=false; SignalShutdown) no waiter may stay blocked while an element is available resp. the condition is false (ctl.HangTimeout); all pushed elements are accounted for; non-trivial = a waiter obtained an element or >=2 waiters; distinct by case")
+	stats.Rule(check, "rapid draws 1-4 PopOrWait(running) waiters launched at drawn positions of a 0-8 step controller program (push / pop / sync / SignalShutdown while the wait condition is still true) plus 0-2 WaitSizeIsAbove(6) bystanders on the same condition variable; oracles: an element is delivered exactly once and only if pushed; a waiter returns empty-handed only after the wait condition was set false; at sync points and at the end (running=false; SignalShutdown) no waiter may stay blocked while an element is available resp. the condition is false (ctl.HangTimeout); all pushed elements are accounted for; non-trivial = a waiter obtained an element or >=2 waiters; distinct by case")
 	rapid.Check(t, func(rt *rapid.T) {
 		var c powCase
-		c.Ops = rapid.SliceOfN(rapid.SampledFrom([]string{"push", "push", "pop", "sync"}), 0, 8).Draw(rt, "ops")
+		c.Ops = rapid.SliceOfN(rapid.SampledFrom([]string{"push", "push", "pop", "sync", "signal"}), 0, 8).Draw(rt, "ops")
 		nw := rapid.IntRange(1, 4).Draw(rt, "waiters")
 		for i := 0; i < nw; i++ {
 			c.Waiters = append(c.Waiters, rapid.IntRange(0, len(c.Ops)).Draw(rt, "at"))
